@@ -1,7 +1,7 @@
 /- Driver ops for C18: DirectedAcyclicGraph (graph editing, adjustment sets, moral vs path-blocking criterion).
 
    Encodings (no spaces, no '='):  edge `s>t`; edge list `s>t,s>t` (`[]` empty); node list `a,b,c` (`[]` empty);
-   op list `;`-separated: `a:s>t` (add_arrow), `s:<edges>` (add_arrows), `g:<nodes>|<edges>` (add_from_networkx);
+   op list `;`-separated: `a:s>t` (add_arrow), `s:<edges>` (add_arrows), `g:<nodes>|<edges>` (add_from_networkx), `c` (calculate_adjustment_sets);
    set list `;`-separated, a set is `.`-separated, `e` the empty set, `[]` no set at all. -/
 import Driver.Common
 import ZepidVerif.Model.Dag
@@ -38,19 +38,24 @@ def showStatus : Option Err → String
   | none => "ok"
   | some e => showErr e
 
-/-- run an op sequence from `DirectedAcyclicGraph(x, y)`; optionally `calculate_adjustment_sets()` at the end -/
+def parseDagCall (s : String) : Option Call :=
+  if s == "c" then some .calculate else (parseOp s).map .edit
+
+def parseDagCalls (s : String) : Option (List Call) :=
+  if s == "" || s == "[]" then some [] else (s.splitOn ";").mapM parseDagCall
+
+/-- run a history (edits and `c` = calculate_adjustment_sets) on `DirectedAcyclicGraph(x, y)`.
+    `calls` = outcome per call; `reports` = `<sets>:<minimal>` per calculate call, `/`-separated -/
 def opDag (a : Args) : Except String String := do
   let x ← need a "x" parseNat
   let y ← need a "y" parseNat
-  let ops ← need a "ops" parseOps
-  let doCalc ← need a "calc" parseBool
-  let (G, st) := run x y (init x y) ops
-  let base := s!"ok nodes={showList toString G.nodes} edges={showList showEdge G.edges} " ++
-    s!"calls={showList showStatus st}"
-  if doCalc then
-    let L := listAll G x y
-    pure (base ++ s!" sets={showSets L} minimal={showSets (minimal L)}")
-  else pure base
+  let cs ← need a "ops" parseDagCalls
+  let (o, obs) := runObj x y (newObj x y) cs
+  let reps := obs.filterMap (fun ob => ob.2)
+  let showRep := fun (r : List (List Nat) × List (List Nat)) => showSets r.1 ++ ":" ++ showSets r.2
+  let repStr := if reps.isEmpty then "[]" else "/".intercalate (reps.map showRep)
+  pure (s!"ok nodes={showList toString o.dag.nodes} edges={showList showEdge o.dag.edges} " ++
+    s!"calls={showList (fun ob => showStatus ob.1) obs} reports={repStr}")
 
 /-- bounded supplement: the modelled check (moral-graph criterion) and path-blocking d-separation, evaluated on
     every candidate set of one graph -/
